@@ -46,3 +46,40 @@ Proof. split; vm_compute; reflexivity. Qed.
 (* midi_to_chroma([[-1.5, 13.0, nan]]) = [[10.5, 1.0, nan]] *)
 Example ex_chroma : run lg0 gen_mp_midi_to_chroma [v_mframes [[Some (-3#2); Some 13; None]]] = OK (v_mframes [[Some (21#2); Some 1; None]]).
 Proof. vm_compute. reflexivity. Qed.
+
+(* ---------------------------------------------------------------- melody helpers (values compared up to == of Q) *)
+From ME Require Import Proofs.FrameTieMelody.
+Fixpoint leqb (a b : list Q) : bool :=
+  match a, b with [], [] => true | x :: a', y :: b' => Qeq_bool x y && leqb a' b' | _, _ => false end.
+Definition veqb (a b : out fv) : bool :=
+  match a, b with
+  | OK (VArrQ x), OK (VArrQ y) => leqb x y
+  | OK (VTup [VArrQ x1; VArrQ x2]), OK (VTup [VArrQ y1; VArrQ y2]) => leqb x1 y1 && leqb x2 y2
+  | EXN e, EXN f => exn_eqb e f
+  | _, _ => false
+  end.
+Definition run0 := runx (fun _ _ => UNM) lg0.
+(* constant_hop_timebase(0.25, 1.1) = [0, .25, .5, .75, 1];  (0.5, 0.0) = [0.];  (-0.5, -1.0) = [0, -0.5, -1];  (0.5, -1.0): ValueError *)
+Example ex_hop :
+  veqb (run0 gen_mel_constant_hop_timebase [VFlt (1#4); VFlt (11#10)]) (OK (VArrQ [0; 1#4; 1#2; 3#4; 1])) = true
+  /\ veqb (run0 gen_mel_constant_hop_timebase [VFlt (1#2); VFlt 0]) (OK (VArrQ [0])) = true
+  /\ veqb (run0 gen_mel_constant_hop_timebase [VFlt (-1#2); VFlt (-1)]) (OK (VArrQ [0; -1#2; -1])) = true
+  /\ veqb (run0 gen_mel_constant_hop_timebase [VFlt (1#2); VFlt (-1)]) (EXN ValueError) = true.
+Proof. repeat split; vm_compute; reflexivity. Qed.
+(* freq_to_voicing([0, -100, 200]) = ([0, 100, 200], [0, 0, 1]);  with voicing [.5, .5, .25]: ([0, 100, 200], [0, .5, .25]) *)
+Example ex_ftv :
+  veqb (run0 gen_mel_freq_to_voicing [VArrQ [0; -100; 200]; VNone]) (OK (VTup [VArrQ [0; 100; 200]; VArrQ [0; 0; 1]])) = true
+  /\ veqb (run0 gen_mel_freq_to_voicing [VArrQ [0; -100; 200]; VArrQ [1#2; 1#2; 1#4]])
+          (OK (VTup [VArrQ [0; 100; 200]; VArrQ [0; 1#2; 1#4]])) = true.
+Proof. split; vm_compute; reflexivity. Qed.
+(* resample_melody_series([0,1,2], [100,0,300], [1,0,1], [0,.5,1.5,2.5]) = ([100,100,0,0], [1,1,0,0])   (extra sample, zero retention,
+   binary voicing -> zero order);  voicing [1,.5,1], times_new [0,.5,1.5,2] -> ([100,100,0,300], [1,.75,.75,1]) (linear voicing);
+   duplicate time stamps [0,1,1] -> ValueError *)
+Example ex_resample_melody :
+  veqb (run0 gen_mel_resample_melody_series [VArrQ [0; 1; 2]; VArrQ [100; 0; 300]; VArrQ [1; 0; 1]; VArrQ [0; 1#2; 3#2; 5#2]; VStr "linear"])
+       (OK (VTup [VArrQ [100; 100; 0; 0]; VArrQ [1; 1; 0; 0]])) = true
+  /\ veqb (run0 gen_mel_resample_melody_series [VArrQ [0; 1; 2]; VArrQ [100; 0; 300]; VArrQ [1; 1#2; 1]; VArrQ [0; 1#2; 3#2; 2]; VStr "linear"])
+       (OK (VTup [VArrQ [100; 100; 0; 300]; VArrQ [1; 3#4; 3#4; 1]])) = true
+  /\ veqb (run0 gen_mel_resample_melody_series [VArrQ [0; 1; 1]; VArrQ [100; 0; 300]; VArrQ [1; 0; 1]; VArrQ [0; 1#2]; VStr "linear"])
+       (EXN ValueError) = true.
+Proof. repeat split; vm_compute; reflexivity. Qed.
